@@ -10,7 +10,7 @@ ID = 'C18'
 ENGINE = 'E2-style exhaustive interleaving of per-logical-file add_* sequences + E1 product of frame layouts'
 RULE = ("logical files: 2..3 logical files, each with one of seven add_* sequences (two contain a rejected call, before / after an accepted one of the same set),  (origin first / last / explicit "
         "reference, with and without a zone and a parameter referring to it), ALL interleavings of the sequences, x "
-        "set-name assignment {distinct per logical file, all default, partially shared (only ZONE default)} x data "
+        "set-name assignment {distinct per logical file, all default, partially shared (only ZONE default)} x header sequence numbers {ascending, descending, equal, rotated} x data "
         "passed to write() {none, unrelated array, array overriding the equally named data set of every file}; a "
         "configuration that shares a set between logical files must raise, every other one is written and each "
         "logical file is compared with the model (inventory, identities, origins, references, rows, header order). "
